@@ -43,6 +43,8 @@ struct uftrace_task_reader {
 	bool display_depth_set;
 	/* a longjmp() was seen: the next EXIT is the matching setjmp()'s */
 	bool longjmp_pending;
+	/* depth of that longjmp() record: records deeper than it belong to signal handlers */
+	int longjmp_depth;
 	bool fstack_warned;
 	FILE *fp;
 	struct uftrace_symbol *func;
